@@ -54,7 +54,9 @@ type Conn struct {
 	// SASL internals
 	saslRemainingData []byte
 
-	// CancelFunc and WaitGroup for goroutines
+	// Context, CancelFunc and WaitGroup for goroutines. The context also
+	// identifies the connection those goroutines belong to.
+	ctx context.Context
 	die context.CancelFunc
 	wg  sync.WaitGroup
 
@@ -463,9 +465,10 @@ func (conn *Conn) postConnect(ctx context.Context, start bool) {
 		bufio.NewWriter(conn.sock))
 	if start {
 		ctx, conn.die = context.WithCancel(ctx)
+		conn.ctx = ctx
 		conn.wg.Add(3)
 		go conn.send(ctx)
-		go conn.recv()
+		go conn.recvFor(ctx)
 		go conn.runLoop(ctx)
 		if conn.cfg.PingFreq > 0 {
 			conn.wg.Add(1)
@@ -491,7 +494,7 @@ func (conn *Conn) send(ctx context.Context) {
 				logging.Error("irc.send(): %s", err.Error())
 				// We can't defer this, because Close() waits for it.
 				conn.wg.Done()
-				conn.Close()
+				conn.closeFor(ctx)
 				return
 			}
 		case <-ctx.Done():
@@ -506,6 +509,11 @@ func (conn *Conn) send(ctx context.Context) {
 // It receives "\r\n" terminated lines from the server, parses them into
 // Lines, and sends them to the input channel.
 func (conn *Conn) recv() {
+	conn.recvFor(conn.ctx)
+}
+
+// recvFor is recv for the connection identified by ctx.
+func (conn *Conn) recvFor(ctx context.Context) {
 	for {
 		s, err := conn.io.ReadString('\n')
 		if err != nil {
@@ -514,7 +522,7 @@ func (conn *Conn) recv() {
 			}
 			// We can't defer this, because Close() waits for it.
 			conn.wg.Done()
-			conn.Close()
+			conn.closeFor(ctx)
 			return
 		}
 		s = strings.Trim(s, "\r\n")
@@ -560,7 +568,7 @@ func (conn *Conn) runLoop(ctx context.Context) {
 
 			// We can't defer this, because Close() waits for it.
 			conn.wg.Done()
-			conn.Close()
+			conn.closeFor(ctx)
 			return
 		}
 	}
@@ -614,10 +622,18 @@ func (conn *Conn) rateLimit(chars int) time.Duration {
 // the sending or receiving goroutines encounter an error.
 // It may also be used to forcibly shut down the connection to the server.
 func (conn *Conn) Close() error {
+	return conn.closeFor(nil)
+}
+
+// closeFor is Close on behalf of the goroutines of the connection identified
+// by ctx: when that connection has already been torn down and replaced by a
+// new one, its stragglers must not close the new one. A nil ctx (the public
+// Close) closes whatever connection is current.
+func (conn *Conn) closeFor(ctx context.Context) error {
 	// Guard against double-call of Close() if we get an error in send()
 	// as calling sock.Close() will cause recv() to receive EOF in readstring()
 	conn.mu.Lock()
-	if !conn.connected {
+	if !conn.connected || (ctx != nil && conn.ctx != nil && ctx != conn.ctx) {
 		conn.mu.Unlock()
 		return nil
 	}
